@@ -190,12 +190,14 @@ def job_flow(job, res):
         b_st, b_ky = S.terms(st), S.terms(ky)
         inputs = [c for c, _ in CTX.symbols.values()]
 
+        history = []
+
         def wit(at_des, r, s, abstract=False):
             # with a cut in place the model speaks about the cut variables: the replay then searches seeded inputs at this stop point
             return lambda m: dict(kind='flow', mode=mode, klen=klen, at_des=at_des, at_round=r, after_step=s,
                                   state=None if abstract else model_bytes(m, st), keyv=None if abstract else model_bytes(m, ky),
-                                  shapes=[list(sshape), list(kshape)], key=dict(kind='flow', mode=mode, klen=klen))
-        pr.fallback = lambda goal: seeded_refute(goal, inputs, list(ex.pc))
+                                  shapes=[list(sshape), list(kshape)], history=list(history), key=dict(kind='flow', mode=mode, klen=klen))
+        pr.fallback = lambda goal: seeded_refute(goal, inputs, assumptions=list(ex.pc))
         # Key-schedule lemma first: every round-key byte scared derives from a master key equals the PC-1 / shift / PC-2 bits of the
         # standard; the (arithmetically built) byte terms are then replaced by that canonical form, after which scared's and the
         # standard's terms normalise to the same DAG and each stop-point query is discharged structurally.
@@ -216,6 +218,7 @@ def job_flow(job, res):
         stops = [(d, r, s) for d in job['passes'] for r in job['rounds'] for s in range(10)] + ([(None, None, None)] if job['full'] else [])
         cut_s, cut_r = [], []
         for (d, r, s) in stops:
+            history.append([d, r, s])
             if d is None:
                 out = fn(st, ky)
                 exp = sum((tr[-1]['out'] for tr in traces), [])
@@ -345,6 +348,8 @@ def replay(w):
     for n, (stv, kv) in enumerate(tries):
         a, k = np.array(stv, dtype=np.uint8), np.array(kv, dtype=np.uint8)
         try:
+            for (hd, hr, hs) in (w.get('history') or [])[:-1]:      # earlier calls of the same process, same arguments (hidden state between calls)
+                fn(a, k) if hd is None else fn(a, k, at_des=hd, at_round=hr, after_step=hs)
             got = fn(a, k) if d is None else fn(a, k, at_des=d, at_round=r, after_step=s)
         except Exception as ex:
             return dict(reproduced=True, detail=f'des.{mode} raised {type(ex).__name__}: {ex} on a valid call')
